@@ -436,11 +436,13 @@ func ruleUnaryReplyComplete(c *Ctx, rule string) {
 		n++
 		fs := p.Facts(al)
 		respOK, marshalOK := false, false
-		for k := range fs {
-			if strings.HasPrefix(k, "nonnil(cell:resp") || strings.HasPrefix(k, "nonnil(v:") && strings.Contains(k, "#0") {
+		pu := p.MustFn("goat.handler.processUnaryRpc")
+		for _, mc := range p.callsTo(pu, "CodecV2).Marshal", false) {
+			a := mc.Common().Args
+			if fs.NonNil(p.lpath(a[len(a)-1])) {
 				respOK = true
 			}
-			if strings.HasPrefix(k, "isnil(") {
+			if fs.IsNil(p.lpath(mc.(*ssa.Call)) + "#1") {
 				marshalOK = true
 			}
 		}
